@@ -16,6 +16,10 @@ def schedule(rng, length=None):
             ops.append('tbl add 0 %s %d %d' % (m, g, 1))
             if rng.random() < 0.3:
                 ops.append('tbl complete 0 %s %d' % (m, g))
+        if rng.random() < 0.4:                                   # ... every session of it complete
+            for (m, g) in keys[:17]:
+                ops.append('tbl complete 0 %s %d' % (m, g))
+            ops.append('tbl update 0')
     for _ in range(length or rng.randint(20, 200)):
         c = rng.random()
         m, g = rng.choice(keys)
